@@ -99,6 +99,12 @@ def main():
             violations.append(("hook build failed: the correspondence cannot be run", path, True))
             raise StopIteration
         n_obl, n_dis, problems, thms = obligations(mod, ctx)
+        # change-directed effort: where /repo's source differs from the tree the model was last reconciled with, the quick tier
+        # multiplies its case budget for the properties anchored in the files that moved (never a violation by itself)
+        factor, changed = B.effort_factor(prop)
+        ctx.notes.append("source fingerprints: %s" % ("unchanged" if not changed else "%d file(s) differ from the reconciled tree (%s): case budget x%d" % (len(changed), ", ".join(changed[:6]), factor)))
+        if factor > 1 and tier != "thorough" and not a.replay:
+            ctx.scale = factor
         if a.replay:
             rep = json.load(open(a.replay))
             mod.replay(ctx, rep)
@@ -111,7 +117,7 @@ def main():
             mod.correspondence(ctx)
             if problems and not [d for d in ctx.disagreements if d["in_domain"]]:
                 # a proof obligation broke but nothing disagreed: search harder for a failing input
-                ctx.scale = 5
+                ctx.scale = max(ctx.scale, 5)
                 ctx.notes.append("search mode: obligations broken, correspondence volume x5")
                 mod.correspondence(ctx)
         indom = [d for d in ctx.disagreements if d["in_domain"]]
